@@ -784,16 +784,16 @@ func c17RunFn(c *core.Ctx, raw json.RawMessage) {
 					return
 				}
 			}
-			if code != 200 || strings.Contains(body, `"error"`) && !strings.Contains(body, `"results"`) {
-				if tgt.Idx == k.iso {
-					c.Probe("writes_refused_on_isolated_node")
-					continue
-				}
-				c.Discard(fmt.Sprintf("legitimate write failed: %d %.200s", code, body))
-				return
+			if tgt.Idx == k.iso && !c17Definite(code, body) {
+				c.Probe("writes_refused_on_isolated_node")
+				continue
 			}
-			for _, t := range texts {
-				ref.Exec(t)
+			if !k.applyMaybe(ref, c17Definite(code, body), func() {
+				for _, t := range texts {
+					ref.Exec(t)
+				}
+			}) {
+				return
 			}
 			c.Probe("legit_writes")
 		case "read":
@@ -826,7 +826,9 @@ func c17RunFn(c *core.Ctx, raw json.RawMessage) {
 			}
 			if op.Ep == "request" {
 				// a unified request may legitimately write what it classifies read-write
-				k.applyClassified(ref, tgt, texts, code, body)
+				if !k.applyClassified(ref, tgt, texts, code, body) {
+					return
+				}
 			}
 		case "mixed":
 			bb, _ := json.Marshal(texts)
@@ -840,7 +842,9 @@ func c17RunFn(c *core.Ctx, raw json.RawMessage) {
 				return
 			}
 			c.Probe("mixed_requests")
-			k.applyClassified(ref, tgt, texts, code, body)
+			if !k.applyClassified(ref, tgt, texts, code, body) {
+				return
+			}
 		}
 		if c.Failed() || c.Res.Verdict == core.Discarded {
 			return
@@ -894,13 +898,14 @@ func c17RunFn(c *core.Ctx, raw json.RawMessage) {
 // applyClassified applies to the reference those statements of a unified
 // request that the store classifies read-write (the classification the
 // property refers to), in order, when the request was executed.
-func (k *c17Run) applyClassified(ref *sql.DB, tgt *node.Node, texts []string, code int, body string) {
+func (k *c17Run) applyClassified(ref *sql.DB, tgt *node.Node, texts []string, code int, body string) bool {
 	var top struct {
 		Results []json.RawMessage `json:"results"`
 		Error   string            `json:"error"`
 	}
-	if code != 200 || json.Unmarshal([]byte(body), &top) != nil || top.Error != "" {
-		return // refused as a whole (disallowed pragma, not leader, stale ...): nothing may have changed
+	parsed := json.Unmarshal([]byte(body), &top) == nil
+	if code == 200 && parsed && top.Error != "" && !c17MaybeApplied(top.Error) {
+		return true // refused as a whole before anything was proposed (disallowed pragma, stale read ...)
 	}
 	l := k.s.Leader()
 	if l == nil {
@@ -917,21 +922,103 @@ func (k *c17Run) applyClassified(ref *sql.DB, tgt *node.Node, texts []string, co
 	}
 	if !anyRW {
 		k.c.Probe("unified_requests_all_readonly")
-		return
+		return true
 	}
-	conn, err := ref.Conn(context.Background())
-	if err != nil {
-		return
+	return k.applyMaybe(ref, c17Definite(code, body), func() {
+		conn, err := ref.Conn(context.Background())
+		if err != nil {
+			return
+		}
+		defer conn.Close()
+		for i, t := range texts {
+			if !rw[i] {
+				k.c.Probe("statements_classified_readonly_in_writing_request")
+				continue
+			}
+			k.c.Probe("statements_classified_readwrite")
+			conn.ExecContext(context.Background(), t)
+		}
+	})
+}
+
+// c17Definite: the HTTP answer proves the request was executed (status 200, a
+// result list, no top-level error).
+func c17Definite(code int, body string) bool {
+	var top struct {
+		Results []json.RawMessage `json:"results"`
+		Error   string            `json:"error"`
 	}
-	defer conn.Close()
-	for i, t := range texts {
-		if !rw[i] {
-			k.c.Probe("statements_classified_readonly_in_writing_request")
+	return code == 200 && json.Unmarshal([]byte(body), &top) == nil && top.Error == ""
+}
+
+// c17MaybeApplied: top-level errors after which the proposed entry may still
+// commit (rqlite reports raft's ErrLeadershipLost as "not leader" too).
+func c17MaybeApplied(e string) bool {
+	return strings.Contains(e, "leader") || strings.Contains(e, "timeout") || strings.Contains(e, "timed out")
+}
+
+// applyMaybe applies a legitimate write to the reference. When the client did
+// not get a definite answer, a barrier write is acknowledged first (after it,
+// whatever could still commit has committed); then either the cluster still
+// equals the reference (not applied) or the write is applied to the reference
+// and the comparison that follows every operation must find them equal.
+func (k *c17Run) applyMaybe(ref *sql.DB, definite bool, apply func()) bool {
+	if definite {
+		apply()
+		return true
+	}
+	k.c.Probe("writes_with_unknown_outcome")
+	nop := []byte(`["DELETE FROM t1 WHERE id = -1"]`)
+	acked := false
+	for attempt := 0; attempt < 20 && !acked; attempt++ {
+		l := k.s.Leader()
+		if l == nil || l.Idx == k.iso {
+			if !k.runFor(500 * time.Millisecond) {
+				return false
+			}
 			continue
 		}
-		k.c.Probe("statements_classified_readwrite")
-		conn.ExecContext(context.Background(), t)
+		var code int
+		var body string
+		if !k.do("barrier", 30*time.Second, func() {
+			w := l.HTTPDo("POST", "/db/execute?timeout=5s", "application/json", nop, "", "")
+			code, body = w.Code, w.Body.String()
+		}) {
+			return false
+		}
+		acked = c17Definite(code, body)
+		if !acked && !k.runFor(300*time.Millisecond) {
+			return false
+		}
 	}
+	if !acked || !k.settle(60*time.Second) {
+		if !k.c.Failed() {
+			k.c.Discard("no-barrier-write-after-unknown-outcome: " + k.s.StateDigest())
+		}
+		return false
+	}
+	want, err := c17DumpDB(ref)
+	if err != nil {
+		k.c.Discard("oracle-db dump: " + err.Error())
+		return false
+	}
+	for _, n := range k.s.Nodes[1:] {
+		if n.Up && n.Idx != k.iso {
+			got, err := c17Dump(k.dbPath(n), k.s.Dir)
+			if err != nil {
+				k.c.Discard("dump-failed: " + err.Error())
+				return false
+			}
+			if got == want {
+				k.c.Probe("unknown_outcome_not_applied")
+				return true
+			}
+			break
+		}
+	}
+	k.c.Probe("unknown_outcome_applied")
+	apply()
+	return true
 }
 
 func init() {
